@@ -1,6 +1,7 @@
 # Concrete payload catalogue and instantiation of TLC's layout plans (spec/Layout.tla) as real grids.
 # Only construction: no expectation about dump/parse lives here.
 import base64
+import zlib
 import datetime
 import random
 
@@ -203,7 +204,12 @@ class Catalogue(object):
             row['mid'] = [{'tag': v}, 'after'] if v is not None else [{'tag': hs.MARKER}, None]
         elif pos in ('ngrid_cell', 'ngrid_gmeta', 'ngrid_cmeta', 'grid_in_list'):
             ncols = [('x', [('tag', v)] if pos == 'ngrid_cmeta' else []), ('y', [])]
-            ng = hs.Grid(version=ver, metadata={'tag': v} if pos == 'ngrid_gmeta' else {}, columns=ncols)
+            # a nested grid has a version of its own: where the payload allows it, the inner grid is a 2.0 grid
+            # inside its 3.0 holder (every second payload, chosen by the payload's label)
+            inner = ver
+            if plan['kind'] not in ('na', 'xstr', 'list', 'dict', 'grid') and zlib.crc32(str(label).encode()) % 2:
+                inner = '2.0'
+            ng = hs.Grid(version=inner, metadata={'tag': v} if pos == 'ngrid_gmeta' else {}, columns=ncols)
             ng.extend([{'x': v if pos in ('ngrid_cell', 'grid_in_list') else 1, 'y': 'ny'}, {'x': 2, 'y': 'last'}])
             row['mid'] = [ng, 'after'] if pos == 'grid_in_list' else ng
         g.extend([filler(), row, filler()])
